@@ -97,7 +97,7 @@ class Env:
 
 
 def setup(ctx, ts, G, space, zero_first=True, tag="", max_summary=True, eps_sym=True,
-          build="bp", node_name=None, patch_core=False):
+          build="bp", node_name=None, patch_core=False, scale=None):
     """Context manager: patched modules + symbolic priors/likelihood for `ts`.
 
     build: "bp" (Likelihoods + BeliefPropagation built here), "method" (only priors; the
@@ -127,10 +127,13 @@ def setup(ctx, ts, G, space, zero_first=True, tag="", max_summary=True, eps_sym=
             acc = Q(Fraction(0))
             for g in range(1, G):
                 acc = acc + sym(f"dt{g}", "pos")
-                tp[g] = acc
+                tp[g] = acc if scale is None else acc * scale
             env.timepoints = tp
             env.mu = sym("mu", "pos")
             env.eps = sym("eps", "pos") if eps_sym else 0
+            if scale is not None:       # change of time unit (C06): t*c, eps*c, mu/c
+                env.mu = env.mu / scale
+                env.eps = env.eps * scale
             samples = [int(u) for u in ts.samples()]
             # same row order as prior.fill_priors: non-sample nodes by increasing input time
             datable = np.array([u for u in range(ts.num_nodes) if u not in samples],
